@@ -14,6 +14,8 @@ LEVELS = [(1, 2), (1, 2), (1, 3), (2, 3), (2, 3), (1, 4), (2, 4)]
 def gen_config(rng, tier, dims=(1, 2, 2, 2, 3, 3, 4), max_steps=None, box_kinds=None):
     d = rng.choice(dims)
     lmin, lmax = rng.choice(LEVELS)
+    if d <= 2 and rng.random() < 0.08:
+        lmin, lmax = rng.choice([(2, 5), (3, 4), (3, 5), (1, 5)])      # high start levels / large level differences
     if d == 4 and lmax > 3:
         lmin, lmax = rng.choice([(1, 2), (2, 3), (1, 3)])
     if d == 3 and lmax > 3 and rng.random() < 0.5:
